@@ -37,8 +37,11 @@ def body(run):
         sm = fz.src_mask(rng, g.src_shape, rng.choice(['none', 'holes', 'border', 'islands', 'corner', 'sparse-block']))
         # positive textured data with a fine-grained pattern so that no window is degenerate (see C17)
         yy, xx = np.mgrid[0:g.src_shape[0], 0:g.src_shape[1]]
-        src = (fz.texture(rng, g.src_shape, 1)[0] + ((yy * 3 + 7 * xx) % 23) * 0.25).astype('float32')[None]
-        pair = fz.make_pair(run.work, g, rng, src=src, smask=sm, tag='v')
+        src = (40 + 1.75 * yy + 3.0 * xx + 0.25 * (fz.texture(rng, g.src_shape, 1)[0] % 2)).astype('float32')[None]
+        # how the source stores invalidity: NaN, a finite nodata value (the corrected values under it would be finite), internal mask, uint16 / 0
+        senc = [dict(encoding='nan'), dict(encoding='nodata', nodata=-9999.0), dict(encoding='nodata', nodata=0.0), dict(encoding='mask', hidden=77.0),
+                dict(encoding='nodata', nodata=0, dtype='uint16'), dict(encoding='nodata', nodata=1000.0)][k % 6]
+        pair = fz.make_pair(run.work, g, rng, src=src, smask=sm, tag='v', src_kw=senc)
         ups = rng.choice(['cubic_spline', 'bilinear', 'nearest'])
         dt, nodata = rng.choice([('float32', NAN), ('float32', -9999.0), ('float32', None), ('uint16', 0), ('uint16', None), ('float64', NAN)])
         try:
@@ -51,7 +54,7 @@ def body(run):
                 dist['skipped:' + type(ex).__name__] = dist.get('skipped:' + type(ex).__name__, 0) + 1
                 continue
             raise
-        desc = dict(geom=g.describe(), model=model, kernel_shape=list(kshape), requested_proc_crs=proc, processing_grid=res['proc_crs'], max_block_mem=mbm,
+        desc = dict(geom=g.describe(), source_encoding=senc, model=model, kernel_shape=list(kshape), requested_proc_crs=proc, processing_grid=res['proc_crs'], max_block_mem=mbm,
                     blocks=nblk, upsampling=ups, out_dtype=dt, out_nodata=None if nodata is None else (float(nodata) if not (isinstance(nodata, float) and math.isnan(nodata)) else 'nan'))
         key = f'{res["proc_crs"]}/{ups}/{dt}/nodata={desc["out_nodata"]}/blocks={"1" if nblk == 1 else ">1"}'
         dist[key] = dist.get(key, 0) + 1
@@ -98,7 +101,7 @@ def body(run):
     run.cov['evaluations'] += ncorr
     run.cov['rule'] = ('real fusions of positive textured data with the reference valid over the footprint: geometries (ratios, sub-pixel offsets with the x.5 / x.25 '
                        'family over-sampled, origins up to 7.6e6), source masks (holes, 1-px islands, borders, a nearly empty block), 3 models, kernels incl. h != w, '
-                       '3 grids, 1..30 blocks, nearest / bilinear / cubic-spline up-sampling, output nodata NaN / numeric / internal mask on float32 / uint16 / float64: '
+                       '3 grids, source invalidity stored as NaN / finite nodata (-9999, 0, 1000) / internal mask / uint16 0, 1..30 blocks, nearest / bilinear / cubic-spline up-sampling, output nodata NaN / numeric / internal mask on float32 / uint16 / float64: '
                        'the dataset mask of the corrected image must equal the dataset mask of the source exactly; non-trivial = masked source or several blocks')
     run.extra['input_distribution'] = dict(runs=dist, kernel_corr_cases=ncorr, kernel_corr_nontrivial=nt)
     run.assumptions += ['H_down_valid / H_up_local2: a processing pixel is valid after down-sampling iff some valid source pixel overlaps it; up-sampling at a valid '
